@@ -59,7 +59,8 @@ let () =
   let a = if Array.length Sys.argv > 1 then Sys.argv.(1) else "00" in
   let v = { fix_c2 = (a.[0] = '1'); fix_ns = (a.[1] = '1') } in
   let ser scripting scope n =
-    match ser_bytes v { scripting_enabled = scripting; traversal_scope = scope; create_missing_parent = false } n with
+    (* the deque traversal (rcdom as written); proved equal to ser_bytes *)
+    match ser_deque_bytes v { scripting_enabled = scripting; traversal_scope = scope; create_missing_parent = false } n with
     | Some b -> hexs (List.map int_of_n b)
     | None -> "!" in
   let rec elements scripting n acc =
